@@ -210,7 +210,10 @@ def llLoop (skip : Bool) : PlaylistView → List PlaylistView → List Req × Ou
       | [] => ([hintReq h, plReq skip], .playlistFetch)
       | pl' :: rest' =>
         match pl'.hint with
-        | none => ([hintReq h, plReq skip], .hintDisappeared)
+        | none =>
+          -- `if pl.PreloadHint == nil { if <llEndOfStream> { push(nil); <-ctx.Done() }; return "preload hint disappeared" }`
+          -- (fix-F28: the regenerated condition is `pl.Endlist`; upstream it was `false`)
+          ([hintReq h, plReq skip], if llEndOfStream pl'.endlist then .eos else .hintDisappeared)
         | some _ =>
           let (log, out) := llLoop skip pl' rest'
           (hintReq h :: plReq skip :: log, out)
